@@ -597,8 +597,9 @@ contract(
             invariants={
                 "len": "len(flattened_components) == len(raw)",
                 # THE composition: entry k becomes (same name, component.T ∘ nested.T) with the exact six terms
-                "composed": "all(flattened_components[k][0] == raw[k][0] and "
-                + _eq6("flattened_components[k][1]", composed6(_CT, [f"raw[k][1].{k}" for k in _T6])) + " for k in range(k0))",
+                "composed-name": "all(flattened_components[k][0] == raw[k][0] for k in range(k0))",
+                **{"composed-" + _k: "all(flattened_components[k][1]." + _k + " == " + _e + " for k in range(k0))"
+                   for _k, _e in zip(_T6, composed6(_CT, [f"raw[k][1].{k}" for k in _T6]))},
                 # (the engine iterates the list value as it was at loop entry, i.e. `tr` IS raw[k0][1]; Python reads the live list, which
                 #  agrees because only position i — already read — is replaced.  "Positions > k0 are still raw" is therefore not needed.)
             },
